@@ -477,7 +477,7 @@ def run(tier, seed):
         parts.append(("exhaustive n<=3, every edge, k<=3", r1))
         parts.append(("invalid inputs", hv.campaign(invalid(4000, rng), oracle_c14, max_report=50)))
         parts.append(("grids and split grids with random unsews", hv.campaign(grids(4000, rng), oracle_c14, max_report=50)))
-        parts.append(("malformed (outside the guard)", hv.campaign(malformed(4000, rng), oracle_c14, max_report=50)))
+        parts.append(("malformed (outside the guard)", hv.campaign(malformed(4000, rng), oracle_c14, max_report=50, advisory=True)))
         parts.append(("inside tx blocks", hv.campaign(blocks(2000, rng), None)))
     else:
         r1 = hv.campaign(exhaustive(3, rng), oracle_c14, max_report=200)
@@ -485,7 +485,7 @@ def run(tier, seed):
         parts.append(("exhaustive n<=3, every edge, k<=3", r1))
         parts.append(("invalid inputs", hv.campaign(invalid(60000, rng), oracle_c14, max_report=50)))
         parts.append(("grids and split grids with random unsews", hv.campaign(grids(60000, rng), oracle_c14, max_report=50)))
-        parts.append(("malformed (outside the guard)", hv.campaign(malformed(60000, rng), oracle_c14, max_report=50)))
+        parts.append(("malformed (outside the guard)", hv.campaign(malformed(60000, rng), oracle_c14, max_report=50, advisory=True)))
         parts.append(("inside tx blocks", hv.campaign(blocks(30000, rng), None)))
     res = hv.merge_results(parts)
     res["violations"] = dedupe(res["violations"])
